@@ -166,6 +166,7 @@ type ctx struct {
 	ghostConst   map[string]term
 	inInv        bool
 	inMerge      bool
+	lastInst     *ssa.Function
 	memo         map[string][]memoEntry
 	readLog      []map[string]string
 	w        *world
@@ -1141,6 +1142,20 @@ func (x *ctx) run(st *state, fr *frame, b *ssa.BasicBlock, idx int, prev *ssa.Ba
 					live++
 				}
 			}
+			// syntactic pruning: a branch whose negation is already a fact of this path is infeasible
+			for bi, cond := range conds {
+				if cond == "false" || x.spec > 0 {
+					continue // (never in specification mode: merged specification values must not depend on the path)
+				}
+				neg := not(cond)
+				for _, f := range st.pc {
+					if f.t == neg {
+						conds[bi] = "false"
+						live--
+						break
+					}
+				}
+			}
 			for bi, cond := range conds {
 				if cond == "false" {
 					continue
@@ -1151,7 +1166,7 @@ func (x *ctx) run(st *state, fr *frame, b *ssa.BasicBlock, idx int, prev *ssa.Ba
 				}
 				ns.assume(cond)
 				if cond != "true" && x.spec == 0 {
-					ns.sig = append(ns.sig, fmt.Sprintf("%s:%v", b.Comment, bi == 0))
+					ns.sig = append(ns.sig, fmt.Sprintf("%s.%s:%v", fr.fn.Name(), b.Comment, bi == 0))
 				}
 				res = append(res, x.run(ns, nfr, b.Succs[bi], 0, b)...)
 			}
